@@ -160,10 +160,27 @@ func buildHost(tape *sim.Tape, bad bool) *c11Host {
 			add([]string{"<style>", "<style type=\"text/css\">", "<style media=\"screen\">"}[tape.Draw(3)],
 				c11Slot{MT: "text/css", Payload: pick("text/css"), Ctx: "<style>"}, "</style>\n")
 		case 5:
-			add("<p style=\"", c11Slot{MT: "text/css", Inline: true, Payload: pick("css-decl"), Ctx: "style=", Attr: true}, "\">x</p>\n")
+			add([]string{"<p style=\"", "<td class=c style=\"", "<span STYLE=\""}[tape.Draw(3)], c11Slot{MT: "text/css", Inline: true, Payload: pick("css-decl"), Ctx: "style=", Attr: true}, "\">x</p>\n")
 		case 6:
-			add([]string{"<a onclick=\"", "<a onclick=\"javascript:"}[tape.Draw(2)],
-				c11Slot{MT: "application/javascript", Inline: true, Payload: pick("js-attr"), Ctx: "onclick=", Attr: true}, "\">y</a>\n")
+			pl := pick("js-attr")
+			pre := []string{"<a onclick=\"", "<a onclick=\"javascript:", "<body onload=\"", "<img src=\"i.png\" onerror=\"", "<div onmouseover='"}[tape.Draw(5)]
+			post := "\">y</a>\n"
+			if strings.HasSuffix(pre, "'") {
+				post = "'>y</div>\n"
+			}
+			if tape.Draw(3) == 0 {
+				// entities in the attribute value: the embedded minifier must get the
+				// unescaped text (HTML attribute value semantics)
+				doc.WriteString(pre)
+				s := c11Slot{MT: "application/javascript", Inline: true, Payload: []byte("foo( 'a' , 1 > 0 && 2 ) ;"), Ctx: "on*= with entities", Attr: true}
+				s.Start = doc.Len()
+				doc.WriteString("foo( &#39;a&#39; , 1 &gt; 0 &amp;&amp; 2 ) ;")
+				s.End = doc.Len()
+				doc.WriteString(post)
+				h.Slots = append(h.Slots, s)
+				break
+			}
+			add(pre, c11Slot{MT: "application/javascript", Inline: true, Payload: pl, Ctx: "on*=", Attr: true}, post)
 		case 7:
 			add("<p>s</p>", c11Slot{MT: "image/svg+xml", Inline: true, Payload: pick("image/svg+xml"), Ctx: "inline <svg>"}, "<p>e</p>\n")
 		case 8:
